@@ -198,6 +198,11 @@ class Evaluator:
         if kind == "arg":
             return Aff.sym(("arg", data))
         if kind == "call":
+            cal = getattr(data, "callee", None) or {}
+            d = cal.get("def", "")
+            if d.endswith("mem::size_of") or d.endswith("mem::align_of"):
+                # a pure function of its type argument: every call with the same type is the same value
+                return Aff.sym((d.rsplit("::", 1)[-1], tuple(cal.get("substs", []))))
             return Aff.sym(("call", pt[0]))
         rv = data["rv"]
         if "use" in rv:
